@@ -5,6 +5,7 @@ import FitModel.Encode
 import FitModel.Parse
 import FitModel.Gen.Strings
 import FitModel.GenCore
+import FitModel.ExpandSpec
 import FitModel.Gen.Profile
 /-
   Line-protocol driver: one case per input line, one canonical result line per case.
@@ -316,8 +317,20 @@ def runGenCore (rows : String) : String :=
     | _ => none
   joinWith ";" ((GenCore.gen rs).map fun e => s!"{e.msg}:{e.sindex}:{e.num}:{e.tcode}")
 
+/-- `devs <accu> <hex>`: decode and classify the expansion of every component-bearing message
+    against the rule-driven specification -/
+def runDevs (accu hex : String) : String :=
+  match unhex hex with
+  | none => "bad-hex"
+  | some data =>
+    let (out, _) := decode P {} .full (parseGlobals accu) (Reader.ofBytes data)
+    match out.st.file with
+    | none => "none"
+    | some f => XSpec.classify P f.xlog
+
 def runLine1 (line : String) : String :=
   match splitOnChar line ' ' with
+  | ["devs", accu, hex] => runDevs accu hex
   | ["gencore", rows] => runGenCore rows
   | ["strs", t, lo, hi] => runStrs t lo hi
   | ["encrep", _, arch, dump] => runEncRep arch dump
